@@ -139,6 +139,14 @@ def cases(rng, tier):
                             ops.append([3, d])
                         ops.append([1, b"d%d;" % k])
                     out.append(mk(0, b, c, pattern, "app.log", [], ops))
+    # big files that hardly compress (pseudo-random bytes, 70 KB .. 300 KB): whatever block size an archiver copies
+    # with and however many bytes a compressor accepts per call, the archive holds the whole file
+    for (pattern, sizes) in (("z/a.{}.gz", [70000, 150001]), ("zs/a.{}.zst", [70000, 131072]), ("a.{}.log", [70000])):
+        for n in (sizes if tier == "quick" else sizes + [300000]):
+            blob = bytes((rng.below(256) for _ in range(4096))) * (n // 4096 + 1)
+            # (a 4 KiB random block repeated would compress: make every block different)
+            blob = bytes((b + (i >> 12) * 17 + (i >> 8)) & 255 for i, b in enumerate(blob[:n]))
+            out.append(mk(0, 1, 2, pattern, "app.log", [], [[1, blob], [1, b"small;"], [1, blob[: n // 2]]]))
     # delete roller
     for pattern in ("a.{}.log",):
         for present in ([], [0, 1]):
